@@ -31,7 +31,7 @@ type c17hBehaviour struct {
 }
 
 func c17hRange(file []byte, start, end int64) (int64, int64, bool) {
-	if start < 0 || start >= int64(len(file)) {
+	if start < 0 || start >= int64(len(file)) || end < start { // (a last position before the first one: Go's file server answers 416)
 		return 0, 0, false
 	}
 	if end >= int64(len(file)) {
@@ -209,6 +209,11 @@ func TestVerif_C17_HTTP(t *testing.T) {
 		judge("second read (healthy server)", n2, rerr2, p2, false)
 		if c.Off >= 0 && c.Off+int64(c.Len) <= size && rerr2 != nil && c.Len > 0 {
 			viol("healthy-read-fails", fmt.Sprintf("second read with a healthy server failed: %v", rerr2))
+		}
+		// a read of no bytes at a position inside the file asks for nothing the remote lacks (at the very end of the
+		// file an end-of-file answer is as good)
+		if c.Len == 0 && c.Off >= 0 && c.Off < size && rerr2 != nil {
+			viol("healthy-empty-read-fails", fmt.Sprintf("second read (of no bytes, inside the file) with a healthy server failed: %v", rerr2))
 		}
 	}
 	if rp := vkit.ReplayRequest(); rp != nil {
